@@ -27,10 +27,78 @@ SHARD_TIMEOUT = {"quick": 300, "thorough": 3000}
 
 def plan(tier, seed):
     n = 12 if tier == "quick" else 48
-    return [{"kind": "random", "n": 500 if tier == "quick" else 3200} for _ in range(n)] + [{"kind": "templates"}]
+    return ([{"kind": "random", "n": 500 if tier == "quick" else 3200} for _ in range(n)] + [{"kind": "templates"}]
+            + [{"kind": "modscope", "n": 60 if tier == "quick" else 400} for _ in range(2 if tier == "quick" else 8)])
+
+
+MOD_CALLS = [
+    ("List", "List->rest([1, 2, 3])"), ("List", "List->reverse([1, 2, 3])"), ("List", "List->flatten([[1], [2, [3]]])"),
+    ("List", "List->unique([1, 2, 1, 3])"), ("List", "List->first_n([1, 2, 3], 2)"), ("List", "List->last_n([1, 2, 3], 2)"),
+    ("List", "List->map_list([1, 2], fn(v) v * 2)"), ("List", "List->filter([1, 2, 3], fn(v) v > 1)"),
+    ("List", "List->reduce([1, 2, 3], fn(p, q) p + q)"), ("List", "List->prod([1, 2, 3])"), ("List", "List->grep(['ab', 'cd'], //a//)"),
+    ("List", "List->grouped([1, 2, 3, 4])"), ("List", "List->permutations([1, 2, 3])"), ("List", "List->contains([1, 2], 2)"),
+    ("List", "List->find_last([1, 2, 1], 1)"), ("List", "List->first([1, 2])"), ("List", "List->last([1, 2])"),
+    ("Stat", "Stat->geometric_mean([1, 4])"), ("Stat", "Stat->harmonic_mean([1, 4])"), ("Bitwise", "Bitwise->bit_rotate_left_32(1, 3)"),
+    ("Random", "do Random->set_seed(5); Random->choice([1, 2, 3]) end"), ("Random", "do Random->set_seed(7); Random->sample([1, 2, 3, 4], 2) end"),
+    ("Set", "Set->union(<<1, 2>>, <<2, 3>>)"), ("Set", "Set->intersection(<<1, 2>>, <<2, 3>>)"), ("Set", "Set->diff(<<1, 2>>, <<2, 3>>)"),
+    ("Set", "Set->symmetric_diff(<<1, 2>>, <<2, 3>>)"), ("Stat", "Stat->mean([1, 2, 6])"), ("Stat", "Stat->median([3, 1, 2])"),
+    ("Stat", "Stat->median_low([3, 1, 2, 4])"), ("Stat", "Stat->median_high([3, 1, 2, 4])"), ("Bitwise", "Bitwise->bit_and(6, 3)"),
+]
+SHADOW_EXTRA = ["x", "lst", "result", "i", "n", "acc", "a", "b", "l", "s", "fn_", "item", "idx", "value", "key", "list", "obj", "count", "size", "seta", "setb"]
+
+
+def run_modscope(spec, ctx):
+    """a module function's free names resolve in the module (and the base environment), never in the scope that
+    happened to require the module first: whatever the requirer defines, or whatever function parameters and
+    locals are in scope where the require runs, module functions return what they return without them.
+    Non-legacy interpreters (modules are loaded on demand there); one fresh interpreter per program."""
+    import ckl.functions
+    r = ctx.rng
+    base_it, _ = core.new_interpreter(secure=True, legacy=False)
+    # (not the functions the operators of the requirer's own lambdas stand for: shadowing `greater` changes `v > 1`
+    #  in the requirer's code, rightly)
+    operator_fns = {"add", "sub", "mul", "div", "mod", "greater", "less", "equals", "not_equals", "greater_equals", "less_equals",
+                    "is_not_null", "is_null", "identity"}
+    names = sorted(n for n in base_it.base_environment.getSymbols() if n.isidentifier() and not n.startswith("checkerlang")
+                   and n == n.lower() and n not in operator_fns)
+    names = names + [n for n in SHADOW_EXTRA if n not in names]
+    for _ in range(spec["n"]):
+        mod, call = r.choice(MOD_CALLS)
+        calls = [call] + [c for m, c in r.sample(MOD_CALLS, 3) if m == mod and c != call]
+        body = "[%s]" % ", ".join(calls)
+        outs = []
+        shadows = r.sample(names, r.randint(3, 12))
+        sh_defs = "; ".join((("def %s = 'mine'" % n) if r.random() < 0.4 else ("def %s(p_...) 'mine'" % n)) for n in shadows)
+        params = ", ".join(r.sample([n for n in names if n not in ("fn_",)], r.randint(1, 4)))
+        variants = [("plain", "require %s; %s" % (mod, body)),
+                    ("requirer-top-level", "%s; require %s; %s" % (sh_defs, mod, body)),
+                    ("requirer-defines-later", "require %s; %s; %s" % (mod, sh_defs, body)),
+                    ("require-inside-function", "def loader_(%s) do require %s; %s end; loader_(%s)" % (
+                        params, mod, body, ", ".join("'mine'" for _ in params.split(", ")))),
+                    ("require-inside-function-with-locals", "def loader_() do %s; require %s; %s end; loader_()" % (sh_defs, mod, body))]
+        for tag, src in variants:
+            it, out = core.new_interpreter(secure=True, legacy=False)
+            env = ckl.functions.Environment()
+            o = core.observe(lambda: it.interpret(src, "c03mod", env), 3000000)
+            outs.append((tag, src, o.kind, core.safe_str(o.value if o.kind == "value" else getattr(o.exc, "msg", o.exc), 300)))
+            ctx.count("modscope_programs")
+        ctx.case(("modscope", body, sh_defs, params), nontrivial=True)
+        base = outs[0]
+        if base[2] != "value":
+            ctx.note("module call does not evaluate on its own: %s -> %s" % (base[1], base[3]))
+            ctx.count("modscope_baseline_errors")
+            continue
+        for tag, src, kind, txt in outs[1:]:
+            ctx.count("modscope_comparisons")
+            if (kind, txt) != (base[2], base[3]):
+                ctx.violation("C03:module-function-sees-requirer-scope:%s:%s" % (tag, mod),
+                              "%s -> %s %s, but without the requirer's names: %s" % (src[:600], kind, txt, base[3]), {"src": src})
+                break
 
 
 def run_shard(spec, ctx):
+    if spec["kind"] == "modscope":
+        return run_modscope(spec, ctx)
     import ckl.functions
     tr = envtrace.TRACE
     tr.install()
@@ -62,7 +130,7 @@ def finalize(merged, tier):
     reasons = []
     if c.get("harness_syntax_errors", 0):
         reasons.append("%d generated programs did not parse (harness defect)" % c["harness_syntax_errors"])
-    for k in ("differential_comparisons", "env_call_frames", "env_assignments", "env_defs", "templates"):
+    for k in ("differential_comparisons", "env_call_frames", "env_assignments", "env_defs", "templates", "modscope_comparisons"):
         if c.get(k, 0) == 0:
             reasons.append("monitor counter %s is zero" % k)
     disc = {m: c.get("discriminates_" + m, 0) for m in MODES}
